@@ -597,5 +597,5 @@ func c05SelfTest(t *testing.T) {
 
 func TestVerifC05Login(t *testing.T) {
 	c05SelfTest(t)
-	vlib.Drive(t, vlib.Spec[c05Case]{ID: "C05", Quick: 40000, Gen: c05Gen, Run: c05Guarded})
+	vlib.Drive(t, vlib.Spec[c05Case]{ID: "C05", Quick: 100000, Gen: c05Gen, Run: c05Guarded})
 }
